@@ -83,6 +83,23 @@ CLAIMED = {
         note="Trusted: Coq kernel; hand model + fingerprints; the ODE-solver contract is monitored (independent re-integration), the second-order alignment "
              "statement is a consequence observed, not proved; dct-interpolated grids are skipped by the re-integration.",
         category="proof", technique="Coq proof on a hand model + independent re-integration oracle", design="6/C04"),
+    "C05": dict(
+        text="Coq theorems (axiom-free): calcHy's stencils pick d[2j+2]-d[2j] (cell) and d[2j+3]-d[2j+1] (interior face) for contours of ANY length, strictly "
+             "increasing distance gives hy > 0, the hand-over along a chain is continuous exactly when each later region's list starts at 0, and for every tokamak "
+             "table the y-groups (loop variant REGENERATED from Mesh.makeRegions) partition the regions, are linked by `upper`, and start at the lower target or at the "
+             "first core region. On every corpus grid: stencils vs the implementation's own distance lists (incl. joins and boundaries), distances vs independent "
+             "three-point circle arcs, monotonicity, origin, continuity, total = circumference, y-groups vs the model.",
+        note="Trusted: Coq kernel; fingerprints + hand model; the arc-length contract of FineContour is monitored (3% threshold, observed <= 1.6%), X-point half cells excluded; "
+             "quadratic convergence in finecontour_Nfine is not claimed by the quick tier.",
+        technique="Coq proof (list lemmas, finite table evaluation) on a hand model + source fingerprints + grid oracle", design="6/C05"),
+    "C06": dict(
+        text="Coq theorems: dphidy (REGENERATED from geometry2) = hy*Bt/(Bp*R) = bpsign * d(zShift)/dy; continuity of the hand-over at every join when each region's "
+             "increments start at 0; for every tokamak table the periodic chain consists of core regions only (jump location). On every corpus grid: dphidy and "
+             "ShiftTorsion formulas exactly at every location, zShift increments vs Simpson's rule with the grid's own arc lengths, zero at the chain start, continuity at "
+             "joins, ShiftAngle = once round all regions of the periodic chain, ShiftAngle finite exactly on closed surfaces.",
+        note="Trusted: Coq kernel (+ Reals axioms for the dphidy identity); fingerprints of calcZShift; quadrature accuracy monitored (35% threshold away from X-point cells: "
+             "catches wrong integrands/factors, not small errors); ShiftAngle = 2*pi*q for the circular case is not proved.",
+        technique="Coq proof on translated formula + hand chain model + grid oracle", design="6/C06"),
 }
 
 PENDING = ["C01", "C03", "C04", "C05", "C06", "C07", "C08", "C09", "C10", "C11", "C12", "C13", "C14", "C15", "C16", "C17", "C18", "C19", "C20"]
